@@ -58,9 +58,13 @@ class Rec:
                 h = "nosrc"
             self.functions.add(f"{getattr(f, '__module__', '?')}.{getattr(f, '__qualname__', repr(f))}@{h}")
 
+    def want_sample(self):
+        return len(self.samples) < 3
+
     def sample(self, obj):
         if len(self.samples) < 3:
             self.samples.append(obj)
+        return True
 
     # ---- deciding
     def check(self, ctx, name, goal, fingerprint=None, witness=None, extra=(), timeout_ms=None):
